@@ -299,8 +299,16 @@ struct Lower {
     auto it = localNames.find(VD);
     if (it != localNames.end()) return it->second;
     std::string n;
-    if (!VD->getName().empty()) n = VD->getName().str();
-    else if (auto* P = dyn_cast<ParmVarDecl>(VD)) n = "__p" + std::to_string(P->getFunctionScopeIndex());
+    if (!VD->getName().empty()) {
+      n = VD->getName().str();
+      // expanded parameter packs give several parameters the same name: disambiguate by index
+      if (auto* P = dyn_cast<ParmVarDecl>(VD))
+        if (auto* FD = dyn_cast_or_null<FunctionDecl>(P->getDeclContext())) {
+          int same = 0;
+          for (auto* Q : FD->parameters()) if (Q->getName() == P->getName()) same++;
+          if (same > 1) n += "__" + std::to_string(P->getFunctionScopeIndex());
+        }
+    } else if (auto* P = dyn_cast<ParmVarDecl>(VD)) n = "__p" + std::to_string(P->getFunctionScopeIndex());
     else n = "__u" + std::to_string(tmpCounter++);
     // C has no shadowing problem for nested blocks, but a local must not collide with
     // `this`; names are otherwise kept as in the source so contracts can mention them.
@@ -622,6 +630,7 @@ struct Lower {
       return "(" + initInto(t, CE->getType(), CE, cx) + ", " + t + ")";
     }
     if (auto* IL = dyn_cast<InitListExpr>(E)) {
+      if (IL->isGLValue() && IL->getNumInits() == 1) return ex(IL->getInit(0), cx);  // braced reference binding
       if (IL->getType()->isRecordType() || IL->getType()->isArrayType()) {
         std::string t = newTmp(cx, IL->getType());
         std::string z = "memset(&" + t + ", 0, sizeof(" + t + ")), ";
@@ -1182,9 +1191,18 @@ struct Lower {
         Ctx cx;
         std::string line;
         if (I->isAnyMemberInitializer()) {
-          if (I->isIndirectMemberInitializer()) dieD("indirect member init", CD);
           const FieldDecl* FD = I->getAnyMember();
           std::string lhs = "this->" + fieldName(FD);
+          if (I->isIndirectMemberInitializer()) {
+            // member of an anonymous union/struct: walk the chain of anonymous fields
+            lhs = "(*this)";
+            for (auto* ND : I->getIndirectMember()->chain()) {
+              auto* CF = dyn_cast<FieldDecl>(ND);
+              if (!CF) dieD("indirect member chain", CD);
+              needRecord(CF->getParent());
+              lhs += "." + fieldName(CF);
+            }
+          }
           if (FD->getType()->isReferenceType()) line = "(" + lhs + " = &" + ex(I->getInit(), cx) + ")";
           else line = initInto(lhs, FD->getType(), I->getInit(), cx);
         } else if (I->isBaseInitializer()) {
